@@ -59,30 +59,22 @@ Definition faithful (s : src) (f : font) : Prop :=
            /\ map snd v = map (fun o => ot_round origin - glyf_ymax o) (f_glyf f)
      end.
 
-(* ---- which values fit the fields that are written by a cast ----------------------------- *)
-Definition pt_fitsb (p : pt) : bool := fits_i16 (ot_round (fst p)) && fits_i16 (ot_round (snd p)).
-
-(* every coordinate fits i16, every contour has a point, the point count fits u16 *)
-Definition outline_okb (cs : list contour) : bool :=
-  forallb (fun c => (1 <=? zlen c) && forallb pt_fitsb c) cs && (zsum (map (fun c => zlen c) cs) <=? 65535).
-
+(* ---- the sites that are still written through a saturating cast (known findings) ------- *)
 Definition bbox_fitsb (b : bbox) : bool :=
   let '(x0, y0, x1, y1) := b in fits_i16 x0 && fits_i16 y0 && fits_i16 x1 && fits_i16 y1.
 
-Definition offset_fitsb (ct : Z * affine) : bool :=
-  let '(_, _, _, _, e, f) := snd ct in fits_i16 (ot_round e) && fits_i16 (ot_round f).
-
-Definition glyph_castsb (glyphs : list glyph_src) (g : glyph_src) : bool :=
+(* the box of a kept composite *)
+Definition glyph_knownb (glyphs : list glyph_src) (g : glyph_src) : bool :=
   match g with
-  | SrcSimple _ _ cs => outline_okb cs
+  | SrcSimple _ _ _ => true
   | SrcComposite _ _ comps =>
-      if decomposes comps then outline_okb (decompose glyphs comps)
-      else forallb offset_fitsb comps && bbox_fitsb (composite_bbox_exact (parts_of glyphs comps))
+      if decomposes comps then true else bbox_fitsb (composite_bbox_exact (parts_of glyphs comps))
   end.
 
-Definition casts_fitb (s : src) : bool :=
-  forallb (glyph_castsb (s_glyphs s)) (s_glyphs s)
-  && forallb (fun g => fits_u16 (ot_round (g_adv g))) (s_glyphs s)
+(* composite boxes, hhea line metrics, kerning values, anchor coordinates, vertical
+   origin and advance heights: every value fits its field *)
+Definition known_sites_fitb (s : src) : bool :=
+  forallb (glyph_knownb (s_glyphs s)) (s_glyphs s)
   && fits_i16 (ot_round (s_asc s)) && fits_i16 (ot_round (s_desc s)) && fits_i16 (ot_round (s_gap s))
   && forallb (fun k => fits_i16 (ot_round k)) (s_kern s)
   && forallb pt_fitsb (s_anchor s)
@@ -90,6 +82,28 @@ Definition casts_fitb (s : src) : bool :=
      | None => true
      | Some o => fits_i16 (ot_round o) && forallb (fun g => fits_u16 (ot_round (g_height g))) (s_glyphs s)
      end.
+
+(* ---- what the checked sites accept --------------------------------------------------------- *)
+(* an outline glyf can hold: every coordinate and every step fits i16, no empty contour,
+   at most 65535 points *)
+Definition outline_checksb (cs : list contour) : bool :=
+  coords_fitb cs
+  && diffs_fitb 0 (map fst (glyf_points cs)) && diffs_fitb 0 (map snd (glyf_points cs))
+  && negb (has_empty_contour cs)
+  && (zlen (glyf_points cs) <=? 65535).
+
+(* what the checked sites of one glyph accept *)
+Definition glyph_checksb (glyphs : list glyph_src) (g : glyph_src) : bool :=
+  match g with
+  | SrcSimple _ _ cs => match cs with [] => true | _ => outline_checksb cs end
+  | SrcComposite _ _ comps =>
+      match comps with
+      | [] => true
+      | _ => if decomposes comps
+             then match decompose glyphs comps with [] => true | d => outline_checksb d end
+             else forallb offset_fitsb comps
+      end
+  end.
 
 (* depth-one composites: every component names an outline glyph of the font *)
 Definition wfb (s : src) : bool :=
@@ -102,15 +116,3 @@ Definition wfb (s : src) : bool :=
                                    | _ => false
                                    end) comps
                     end) (s_glyphs s).
-
-(* ---- narrow arithmetic of an outline ------------------------------------------------------- *)
-Fixpoint ends_fitb (cur : Z) (lens : list Z) : bool :=
-  match lens with
-  | [] => true
-  | n :: t => fits_u16 (wrap_u16 (cur + n) - 1) && ends_fitb (cur + n) t
-  end.
-
-Definition outline_arithb (cs : list contour) : bool :=
-  ends_fitb 0 (map (fun c => zlen c) cs)
-  && diffs_fitb 0 (map fst (glyf_points cs))
-  && diffs_fitb 0 (map snd (glyf_points cs)).
